@@ -167,50 +167,51 @@ theorem lastSat_sorted (p : Snap → Bool) (l : List Snap) (hs : SortedC l) (s :
 
 /-! ### applyWALSegmentsV3 against the contiguity specification -/
 
-/-- Under the no-stray-offset hypothesis the loop succeeds exactly on contiguous lists. -/
+/-- The loop succeeds exactly on contiguous lists (no hypothesis needed since the repair of F10). -/
 theorem applyLoop_ok_iff (segs : List Seg) (st : AState) (prev : Option Nat)
     (hg : match st.groups with
           | [] => st.offset = 0 ∧ prev = none
-          | (i, _) :: _ => prev = some i)
-    (hH : noStrayFrom prev segs = true) :
+          | (i, _) :: _ => prev = some i ∧ i + 1 = st.expected) :
     okB (applyLoop st segs) = contigB st.expected (prev.map (·, st.offset)) segs := by
   induction segs generalizing st prev with
   | nil => simp [applyLoop, okB, contigB]
   | cons b rest ih =>
-    simp only [noStrayFrom, Bool.and_eq_true, Bool.or_eq_true, beq_iff_eq] at hH
-    obtain ⟨hb, hrest⟩ := hH
     simp only [applyLoop, applyStep, contigB]
     by_cases h0 : b.offset = 0
     · simp only [h0, if_true]
       by_cases hi : b.index = st.expected
       · simp only [hi, ne_eq, not_true_eq_false, if_false, decide_true, Bool.true_and]
-        have := ih ⟨st.expected + 1, b.size, (st.expected, [b]) :: st.groups⟩ (some b.index) (by simp [hi]) hrest
+        have := ih ⟨st.expected + 1, b.size, (st.expected, [b]) :: st.groups⟩ (some b.index) (by simp [hi])
         simpa [hi] using this
       · simp [hi, okB]
     · simp only [h0, if_false]
-      by_cases ho : b.offset = st.offset
-      · simp only [ho, ne_eq, not_true_eq_false, if_false]
-        cases hgr : st.groups with
-        | nil =>
-          rw [hgr] at hg
-          exact absurd (ho.trans hg.1) h0
-        | cons g gs =>
-          obtain ⟨i, ss⟩ := g
-          rw [hgr] at hg
-          subst hg
-          have hidx : i = b.index := by
-            rcases hb with (hb | hb) | hb
-            · exact absurd hb h0
-            · simp at hb
-            · exact Option.some.inj hb
-          subst hidx
-          have := ih ⟨st.expected, st.offset + b.size, (b.index, b :: ss) :: gs⟩ (some b.index) (by simp) hrest
-          simpa using this
-      · have : (prev.map (·, st.offset)) = none ∨ ∃ i, (prev.map (·, st.offset)) = some (i, st.offset) := by
-          cases prev <;> simp
-        rcases this with hp | ⟨i, hp⟩
-        · simp [ho, okB, hp]
-        · simp [ho, okB, hp]
+      cases hgr : st.groups with
+      | nil =>
+        rw [hgr] at hg
+        obtain ⟨hoff, hprev⟩ := hg
+        subst hprev
+        by_cases hx : b.index + 1 = st.expected
+        · simp only [hx, ne_eq, not_true_eq_false, if_false]
+          by_cases ho : b.offset = st.offset
+          · exact absurd (ho.trans hoff) h0
+          · simp [ho, okB]
+        · simp [hx, okB]
+      | cons g gs =>
+        obtain ⟨i, ss⟩ := g
+        rw [hgr] at hg
+        obtain ⟨hprev, hie⟩ := hg
+        subst hprev
+        by_cases hx : b.index + 1 = st.expected
+        · have hidx : b.index = i := by omega
+          simp only [hx, ne_eq, not_true_eq_false, if_false]
+          by_cases ho : b.offset = st.offset
+          · simp only [ho, ne_eq, not_true_eq_false, if_false]
+            subst hidx
+            have := ih ⟨st.expected, st.offset + b.size, (b.index, b :: ss) :: gs⟩ (some b.index) (by simp [hx])
+            simpa using this
+          · simp [ho, okB]
+        · have hidx : b.index ≠ i := by omega
+          simp [hx, okB, hidx]
 
 /-! ### Format arbitration helpers -/
 
